@@ -894,6 +894,28 @@ func genOptions(ctx *Ctx, emit0 func(any, string)) {
 	}
 	states(optNames, "stack", "OR", []int{4})
 	states(condOptNames, "cond", "CONDITION", []int{2})
+	// size is no limit: 70 encapsulation schemes one after the other, strings of 300 / 5000 bytes
+	for _, rk := range []string{"stack", "cond"} {
+		in := OptInput{Rk: rk, Kind: "AND", Content: []int{1, 2}}
+		if rk == "cond" {
+			in.Kind, in.Content = "CONDITION", []int{7}
+		}
+		for i := 0; i < 70; i++ {
+			if i%3 == 2 {
+				in.Ops = append(in.Ops, OCall{Op: "setencap", Args: []OArg{{K: "slice", L: []string{fmt.Sprintf("<%d", i), fmt.Sprintf("%d>", i)}}}})
+			} else {
+				in.Ops = append(in.Ops, OCall{Op: "setencap", Args: []OArg{{K: "str", S: fmt.Sprintf("q%d", i)}}})
+			}
+		}
+		long := strings.Repeat("ab c", 75)
+		vlong := strings.Repeat("0123456789", 500)
+		in.Ops = append(in.Ops, OCall{Op: "setid", S: long}, OCall{Op: "setcat", S: vlong}, OCall{Op: "setid", S: vlong})
+		if rk == "stack" {
+			in.Ops = append(in.Ops, OCall{Op: "setsym", Args: []OArg{{K: "str", S: long}}}, OCall{Op: "setdelim", Args: []OArg{{K: "str", S: long}}})
+		}
+		in.Ops = append(in.Ops, OCall{Op: "setencap", Args: []OArg{{K: "str", S: vlong}}})
+		emit(in, "exhaustive")
+	}
 	// random longer sequences mixing everything
 	n := ctx.N(900, 20000)
 	for i := 0; i < n; i++ {
